@@ -41,7 +41,10 @@ def gen_case(rng):
         ops = []
         for _ in range(rng.randint(0, 8)):
             x = rng.random()
-            if x < 0.5 and n_entries < 12:
+            if x < 0.02 and n_entries < 12:
+                # an entry whose result could not be stored (e.g. unpicklable output): directory + metadata, no output.pkl
+                ops.append(["orphan", n_entries, rng.choice(SIZES)]); n_entries += 1
+            elif x < 0.5 and n_entries < 12:
                 ops.append(["new", n_entries, rng.choice(SIZES)]); n_entries += 1
             elif x < 0.7 and n_entries:
                 ops.append(["hit", rng.randrange(n_entries)])
@@ -52,6 +55,10 @@ def gen_case(rng):
                "age": rng.choice(["none", "none", 0, 10, 15, 20, 3600, 100000, "oldest", "newest"]),
                "r": rng.random()}
         rnd = {"ops": ops, "limits": lim}
+        if rng.random() < 0.12:
+            # fault: another cleaner removes entry number k (in scan order) while reduce_size is scanning the store, right
+            # after its access time was read (no writer involved): it must simply be left out of the accounting
+            rnd["vanish_at"] = rng.randint(0, 5)
         if rng.random() < 0.2:
             # fault: the k-th deletion hits "[Errno 116] Stale file handle" (the entry was being removed by another cleaner:
             # it is gone, but rmtree raises) -- the case enforce_store_limits documents and tolerates
@@ -101,13 +108,18 @@ def run_case(case):
         for rnd in case["rounds"]:
             for op in rnd["ops"]:
                 hs.update(op[0].encode())
-                if op[0] == "new":
+                if op[0] in ("new", "orphan"):
                     i = op[1]
                     entries[i] = {"pad": op[2], "live": False}
                     entries[i]["path"] = os.path.join(mem.store_backend.location, c.func_id, c._get_args_id(i, op[2]))
                     err = call(i, 1)
+                    if op[0] == "orphan" and not err:
+                        os.unlink(os.path.join(entries[i]["path"], "output.pkl"))
+                        entries[i]["live"] = False; entries[i]["orphan"] = True
+                        stats["orphans"] = stats.get("orphans", 0) + 1
                 elif op[0] == "hit":
                     err = call(op[1], 0 if entries[op[1]]["live"] else 1)
+                    entries[op[1]].pop("orphan", None)
                 else:
                     clock.now += op[1]; err = None
                 if err and verdict is None:
@@ -132,6 +144,22 @@ def run_case(case):
             hs.update(("|%s|%s|%s" % (b, it, a)).encode())
             import joblib._store_backends as sb, shutil as _sh, types as _types
             fired = [0]
+            orphans = {i: e for i, e in entries.items() if e.get("orphan") and os.path.isdir(e["path"])}
+            vanished = []
+            real_getatime = os.path.getatime
+            if "vanish_at" in rnd:
+                seen = [0]
+
+                def getatime(path_):
+                    v = real_getatime(path_)
+                    if str(path_).endswith("output.pkl"):
+                        k = seen[0]; seen[0] += 1
+                        if k == rnd["vanish_at"]:
+                            d_ = os.path.dirname(path_)
+                            _sh.rmtree(d_, ignore_errors=True)
+                            vanished.append(d_)
+                    return v
+                os.path.getatime = getatime
             if "stale_at" in rnd:
                 count = [0]
 
@@ -149,8 +177,37 @@ def run_case(case):
                            "sig": {"what": "reduce_size_raised", "exc": type(ex).__name__}}
                 break
             finally_restore = sb.__dict__.__setitem__("shutil", _sh)
+            os.path.getatime = real_getatime
             stats["stale"] = stats.get("stale", 0) + fired[0]
+            if vanished:
+                # the externally removed entry is nobody's eviction: judge the rest
+                stats["vanished"] = stats.get("vanished", 0) + 1
+                for i in [i for i, e in live.items() if e["path"] in vanished]:
+                    live[i]["live"] = False
+                    del live[i]
+                total = sum(e["size"] for e in live.values()); n = len(live)
             surv = {i for i, e in live.items() if os.path.exists(os.path.join(e["path"], "output.pkl"))}
+            if orphans and verdict is None:
+                # entries without a result are part of the store: the limits are judged on what is really on disk;
+                # their access time is the directory's, which the scan itself may touch, so LRU order / minimality are
+                # not judged in a round that has some
+                left = [d_ for d_ in (e["path"] for e in entries.values()) if os.path.isdir(d_)]
+                disk_bytes = sum(os.path.getsize(os.path.join(d_, f)) for d_ in left for f in os.listdir(d_))
+                if (il is not None and len(left) > il) or (blb is not None and disk_bytes > blb):
+                    verdict = {"class": "limits_not_met", "detail": "after reduce_size(bytes=%s, items=%s) the store still holds %d entries / %d bytes "
+                               "(entries without output.pkl count too)" % (bl, il, len(left), disk_bytes), "sig": {"what": "limits_not_met", "orphan": True}}
+                for i, e in orphans.items():
+                    if not os.path.isdir(e["path"]):
+                        e.pop("orphan", None)
+                for i in sorted(live):
+                    e_ = call(i, 0 if i in surv else 1)
+                    if e_ and verdict is None:
+                        verdict = {"class": "after_reduce", "detail": e_, "sig": {"what": "after_reduce", "orphan_round": True}}
+                for i in set(live) - surv:
+                    live[i]["live"] = True
+                if verdict:
+                    break
+                continue
             ev = set(live) - surv
             stats["evicted"] += len(ev)
             if len(set(e["at"] for e in live.values())) < len(live):
@@ -198,7 +255,8 @@ def run_case(case):
             if verdict:
                 break
         return {"verdict": verdict, "digest": h.hexdigest()[:24], "shape": hs.hexdigest()[:16], "steps": sum(len(r["ops"]) for r in case["rounds"]),
-                "switches": 0, "sim_time": clock.now - 1.7e9, "faults": {"stale_file_handle_in_rmtree": stats["stale"]} if stats.get("stale") else {}, "nontrivial": nontrivial,
+                "switches": 0, "sim_time": clock.now - 1.7e9, "faults": {k_: v_ for k_, v_ in {"stale_file_handle_in_rmtree": stats.get("stale", 0), "entry_vanishes_during_scan": stats.get("vanished", 0),
+                                                   "entry_without_result": stats.get("orphans", 0)}.items() if v_}, "nontrivial": nontrivial,
                 "probes": {"reduce_with_ties_in_access_time": stats["ties"], "exact_fit_limit": stats["exact_fit"], "entries_evicted": stats["evicted"]},
                 "sample": case["rounds"][0]}
     finally:
